@@ -23,16 +23,16 @@ ADDENDA = {
     'C04': 'After every derived result both operands keep their flags. Write carriers: decimal strings, tuples / lists / NumPy arrays of them, narrow dtypes, nested tuples; callbacks registered only after a prelude (flag-raising writes, reset, resize) must hear about the judged write alone.',
     'C05': 'Fixed-point sources with 3..20 surplus fraction bits incl. the neighbours of every input on the source grid; destinations re-signed by resize and written element by element. Destinations with a history (shallow copy widened to 64 bits / re-formatted, view widened and written, widened and narrowed back, used).',
     'C06': 'Rounding / overflow / shifting options passed next to the sizes; values supplied as an Fxp object (which must stay untouched). A Config whose every setting was changed to other valid values and put back must be state-equal to a fresh one and infer the same formats.',
-    'C07': AGED + '.' + ENVT + ' Also: ; the same object on both sides (x op x).',
-    'C08': AGED + '.' + ENVT + ' Also: ; op / reconfigure exactly one of {modes, const_op_sizing, op_input_size} / same op with the same constant; target formats whose n_frac is up to 47 bits away from the exact result\'s (saturate: any magnitude; wrap: scaled result below 2^62).',
-    'C09': AGED + '.' + ENVT + ' Also: ; wide operands (12..52 bits) whose binary points are far apart, result word <= 53 bits.',
+    'C07': AGED + '.' + ENVT + ' Also: the same object on both sides (x op x).',
+    'C08': AGED + '.' + ENVT + ' Also: op / reconfigure exactly one of {modes, const_op_sizing, op_input_size} / same op with the same constant; target formats whose n_frac is up to 47 bits away from the exact result\'s (saturate: any magnitude; wrap: scaled result below 2^62).',
+    'C09': AGED + '.' + ENVT + ' Also: wide operands (12..52 bits) whose binary points are far apart, result word <= 53 bits.',
     'C10': AGED + '; codes next to the destination grid and its ties by every route x rounding direction (8..52-bit formats); routes resize(signed, n_int, n_frac) and Fxp(x, n_int=...); scalar sources that are elements of an array read before and after a resize by dtype; rescaling by up to 52 bits under saturate (no 62-bit limit).',
     'C11': 'Rendering under configured bin / hex prefixes and unrelated options; rendering never changes the codes. hex / base_repr / bin(frac_dot) of 2-d objects in five non-C layouts; strings fed into objects reached through a history (integer-born then resized by n_frac / dtype, like-derived, used).',
     'C12': 'Complex dtype strings combined with like= / class-level template of a real object; render - store complex - render - store real - render histories.',
-    'C13': AGED + '.' + ENVT + ' Also: ; array second operands (outer, equal-length, matrix x vector, scalar x vector) at every word length.',
-    'C14': AGED + '.' + ENVT + ' Also: ; every power of two, its neighbours and the extremes as single elements x every shift count up to 62 - n_word.',
+    'C13': AGED + '.' + ENVT + ' Also: array second operands (outer, equal-length, matrix x vector, scalar x vector) at every word length.',
+    'C14': AGED + '.' + ENVT + ' Also: every power of two, its neighbours and the extremes as single elements x every shift count up to 62 - n_word.',
     'C15': AGED + '; clip with bounds outside the range, negative lower bound for unsigned formats, integer bounds.',
-    'C16': AGED + '.' + ENVT + ' Also: ; format pairs whose binary points are up to 68 bits apart (n_frac in {-8, 0, n+8, 44, 60}).',
+    'C16': AGED + '.' + ENVT + ' Also: format pairs whose binary points are up to 68 bits apart (n_frac in {-8, 0, n+8, 44, 60}).',
     'C17': 'Inference options (max_error, n_word_max, rounding) differentially against the unscaled object built from (v-b)/s; repeated integer / float / element reads leave the codes alone. Histories on live scaled objects: created in another format and read, then resize by n_frac / dtype / n_word+n_int, like=, or set_best_sizes, then store and read.',
     'C18': 'Operands of the other signedness with and without the top bit set; every read / render / operator leaves the codes alone. Python ints around 2^63 / 2^64 in 7 container kinds (raw and value mode); every derived wide object (like=, template, deepcopy, ~ & | ^, T, flatten, trunc shift, like()) is then overflowed, resized to 16 bits and stored inexactly - its sources keep their record.',
     'C19': 'Wide-word environments (n_word_max, max_error, prefixes, op_input_size ... set on the operands). operate - rewrite every element in place - operate histories on vector operands (incl. >=64-bit words); the same object on both sides.',
